@@ -234,6 +234,40 @@ def poolOKwhy (ts : List (List LEv)) : String :=
   else if !ts.all relOKb then "an acquisition is never released"
   else "ok"
 
+/-! ### the wider hypotheses `Lk.PoolOK2` (Proofs/LocksWide.lean)
+
+A mutex that is acquired only once in the whole pass (by whatever call) is never contended, so it
+may be held across other acquisitions whether it was taken by `try_lock` or by `lock`; every other
+acquisition must be a blocking `lock()` released by the thread's next operation. -/
+
+/-- every mutex some task acquires, with multiplicity -/
+def acqLocksOf : List LEv → List LockId
+  | [] => []
+  | .tryAcq l :: t => l :: acqLocksOf t
+  | .acq l :: t => l :: acqLocksOf t
+  | .rel _ :: t => acqLocksOf t
+
+/-- `wideOKb all t` : every acquisition in `t` is of a mutex acquired once in the pass (`all` lists
+every acquisition of the pass), or a `lock()` released by the next operation -/
+def wideOKb (all : List LockId) : List LEv → Bool
+  | [] => true
+  | .tryAcq l :: t => all.count l == 1 && wideOKb all t
+  | .acq l :: .rel l' :: t =>
+    if l == l' then wideOKb all t else all.count l == 1 && wideOKb all (.rel l' :: t)
+  | .acq l :: t => all.count l == 1 && wideOKb all t
+  | .rel _ :: t => wideOKb all t
+
+def poolOK2b (ts : List (List LEv)) : Bool :=
+  let all := ts.flatMap acqLocksOf
+  ts.all (wideOKb all) && ts.all relOKb
+
+def poolOK2why (ts : List (List LEv)) : String :=
+  let all := ts.flatMap acqLocksOf
+  if !ts.all (wideOKb all) then
+    "a mutex acquired more than once in the pass is try_locked, or lock()ed and not released by the thread's next mutex operation"
+  else if !ts.all relOKb then "an acquisition is never released"
+  else "ok"
+
 section
 variable {α : Type} [Zero α] [One α] [Add α] [Sub α] [Mul α] [Div α] [Neg α]
   [LT α] [DecidableLT α] [BEq α] [NatCast α] [FloatLike α] [Transc α]
